@@ -90,6 +90,39 @@ def run_stage(job):
             round_to_int=job.get('round_to_int', True),
             output_dir=job.get('output_dir'),
             valid_h5ad_path=job.get('valid_h5ad_path'))
+    elif stage == 'election':
+        # the election stage through its own entry point, with a results
+        # directory handed in (per-chunk buffer files go there)
+        import h5py
+        import numpy as np
+        from cell_type_mapper.taxonomy.taxonomy_tree import TaxonomyTree
+        from cell_type_mapper.type_assignment.election_runner import (
+            run_type_assignment_on_h5ad)
+        from cell_type_mapper.utils.utils import clean_for_json
+        with h5py.File(job['precomputed_path'], 'r') as f:
+            tree = TaxonomyTree.from_str(
+                serialized_dict=f['taxonomy_tree'][()].decode('utf-8'))
+        lookup = {level: job['bootstrap_factor']
+                  for level in tree.hierarchy[:-1]}
+        lookup['None'] = job['bootstrap_factor']
+        res = run_type_assignment_on_h5ad(
+            query_h5ad_path=job['query_path'],
+            precomputed_stats_path=job['precomputed_path'],
+            marker_gene_cache_path=job['marker_cache_path'],
+            taxonomy_tree=tree,
+            n_processors=job['n_processors'],
+            chunk_size=job['chunk_size'],
+            bootstrap_factor_lookup=lookup,
+            bootstrap_iteration=job['bootstrap_iteration'],
+            rng=np.random.default_rng(job['rng_seed']),
+            n_assignments=job.get('n_assignments', 3),
+            normalization=job.get('normalization', 'raw'),
+            tmp_dir=job.get('tmp_dir'),
+            log=None,
+            max_gb=1,
+            results_output_path=job['results_output_path'])
+        with open(job['result_path'], 'w') as f:
+            json.dump(clean_for_json(res), f)
     elif stage == 'mapping':
         from cell_type_mapper.cli.from_specified_markers import run_mapping
         cfg = job['config']
